@@ -39,6 +39,9 @@ pub struct ACfg {
     /// a direct subscriber panics inside on_notify of the k-th action while readers sample get_state();
     /// only C08 is judged (the reducer context does not survive the panic in the unmodified code)
     pub sub_panic: bool,
+    /// every handle of the store is dropped without stop() while accepted actions are still queued behind
+    /// a parked reducer; the reducer context keeps the store alive and works the queue off
+    pub abandon: bool,
 }
 
 pub fn gen(rng: &mut Rng, tiny: bool, focus: &str) -> ACfg {
@@ -157,7 +160,8 @@ pub fn gen(rng: &mut Rng, tiny: bool, focus: &str) -> ACfg {
     }
     let default_name = rng.chance(1, 2);
     let stop_timeout = policy == POL_BLOCK && (rng.chance(1, if tiny { 8 } else { 300 }) || std::env::var("RSV_FORCE").as_deref() == Ok("stop_timeout"));
-    let sub_panic = !stop_timeout && focus == "C08" && rng.chance(1, if tiny { 6 } else { 25 });
+    let abandon = !stop_timeout && policy == POL_BLOCK && rng.chance(1, if tiny { 8 } else { 40 });
+    let sub_panic = !abandon && !stop_timeout && focus == "C08" && rng.chance(1, if tiny { 6 } else { 25 });
     ACfg {
         policy,
         cap,
@@ -178,6 +182,7 @@ pub fn gen(rng: &mut Rng, tiny: bool, focus: &str) -> ACfg {
         default_name,
         stop_timeout,
         sub_panic,
+        abandon,
     }
 }
 
@@ -198,6 +203,7 @@ pub fn describe(c: &ACfg) -> J {
         ("read_in_callbacks", J::B(c.read_in_cb)),
         ("stop_runs_into_its_timeout", J::B(c.stop_timeout)),
         ("subscriber_panics_inside_on_notify", J::B(c.sub_panic)),
+        ("all_handles_dropped_without_stop_with_a_backlog", J::B(c.abandon)),
         ("mid_phase_variant", J::s(["none", "registrations while reducer 0 is parked inside a chain", "unsubscribe + subscribe while the first subscriber is parked inside a notification", "add_middleware while middleware 0 is parked inside before_effect"][c.mid_phase as usize])),
     ])
 }
@@ -252,6 +258,40 @@ fn execute_timeout(c: &ACfg, seed: u64) -> (W, bool) {
     w.metrics(0);
     drop(subs);
     (w, quiesced)
+}
+
+/// The last handle is dropped (no stop()) while the reducer is parked inside the first action and more
+/// accepted actions are queued. Every one of them is still reduced and notified.
+fn execute_abandon(c: &ACfg, seed: u64) -> (W, bool) {
+    let mut gated = Script::plain();
+    gated.rgate = 0;
+    let ctx = Ctx::new(ScriptSrc::Table(vec![gated, Script::plain()]), 1, seed, c.perturb, false);
+    let mut w = W::new(ctx, vec![StoreCfg { policy: POL_BLOCK, cap: 16, n_red: c.n_red.max(1), n_mw: c.n_mw, name: "rsva".into(), ctor: 0 }]);
+    let seen = Arc::new(Counter::new());
+    let s1 = w.add_direct_counted(0, true, seen.clone());
+    let s2 = w.add_direct(0, NOGATE, false, true, false);
+    let n = 2 + (seed % 6) as u32;
+    w.dispatch(0, EP_INHERENT, Act { id: act_id(0, 1, 1), script: 0 });
+    for k in 0..n {
+        w.dispatch(0, [EP_INHERENT, EP_STORE_TRAIT, EP_DISPATCHER][k as usize % 3], Act { id: act_id(0, 1, k + 2), script: 1 });
+    }
+    let parked = w.ctx.gates[0].wait_parked(1);
+    w.mark(MARK_ABANDONED, 0);
+    w.stores.clear(); // the harness' only handle
+    w.ctx.gates[0].open();
+    // quiescence: every action notified, or nothing moving any more
+    let mut last = (w.ctx.log.now(), std::time::Instant::now());
+    while seen.get() < n as u64 + 1 {
+        std::thread::sleep(std::time::Duration::from_micros(if cfg!(miri) { 250_000 } else { 300 }));
+        let now = w.ctx.log.now();
+        if now != last.0 {
+            last = (now, std::time::Instant::now());
+        } else if last.1.elapsed().as_millis() as u64 >= 400 * if cfg!(miri) { 20 } else { 1 } {
+            break;
+        }
+    }
+    drop((s1, s2));
+    (w, parked)
 }
 
 /// A subscriber panics inside on_notify of action k. Whatever the store does about it, get_state() must
@@ -318,6 +358,9 @@ fn execute_sub_panic(c: &ACfg, seed: u64) -> (W, bool) {
 
 /// Build the world, run the clients, stop, return the world for the oracles.
 pub fn execute(c: &ACfg, seed: u64) -> (W, bool) {
+    if c.abandon {
+        return execute_abandon(c, seed);
+    }
     if c.sub_panic {
         return execute_sub_panic(c, seed);
     }
@@ -523,6 +566,12 @@ pub fn run(seed: u64, tiny: bool, focus: &str) -> Outcome {
     }
     if c.sub_panic {
         c08(&h, 0, &mut v);
+        return Outcome::new(describe(&c), h, v);
+    }
+    if c.abandon {
+        c01(&h, 0, &mut v);
+        c03(&h, 0, &mut v);
+        c07(&h, 0, &mut v);
         return Outcome::new(describe(&c), h, v);
     }
     c01(&h, 0, &mut v);
